@@ -24,7 +24,7 @@ mon = sys.monitoring
 TOOL = 4
 
 ALPHABET = ['"', "'", "(", ")", "[", "]", "{", "}", "$", "!", "?", "@", "`", "#", ":", ";", ",", ".", "=", "\\",
-            "\n", "\r", "\t", "\f", " ", "\x00", "€", "é", "7", "q"]
+            "\n", "\r", "\t", "\f", " ", "\x00", "€", "é", "7", "q", "b", "f"]
 HOT_CHARS = set("\"'()[]{}\\$!@`:#")
 
 
@@ -43,6 +43,23 @@ def split_lf(text: str) -> list[str]:
 
 def universal(text: str) -> str:
     return text.replace("\r\n", "\n").replace("\r", "\n")
+
+
+def retab(text: str) -> str | None:
+    """The same text with its indentation spelled with tabs (one tab per indentation unit), or None
+    if the text is not indented with a regular unit of spaces."""
+    lines = text.split("\n")
+    widths = sorted({len(ln) - len(ln.lstrip(" ")) for ln in lines if ln.strip() and ln.startswith(" ")})
+    if not widths:
+        return None
+    unit = widths[0]
+    if unit < 2 or any(w % unit for w in widths) or any(ln.startswith("\t") for ln in lines):
+        return None
+    out = []
+    for ln in lines:
+        w = len(ln) - len(ln.lstrip(" "))
+        out.append("\t" * (w // unit) + ln[w:] if ln.strip() else ln)
+    return "\n".join(out)
 
 
 def respell(text: str, how: str) -> str:
